@@ -204,6 +204,18 @@ def _gen(tier, seed):
             yield _case(body, ctype, FRAMINGS[(i * 5 + k) % nf], mems[(i + k * 2) % len(mems)] if k else mems[0],
                         touches[(i + 3 * k) % len(touches)], desc)
 
+    # ---- 0. well-formed forms in which ONE name is used several times as a text field and several times as an upload
+    #         (every order, 4 and 5 parts): well-formed input must of course not be a server fault either
+    for n in (4, 5):
+        for bits in itertools.product((0, 1), repeat=n):
+            parts = []
+            for k, b in enumerate(bits):
+                if b:
+                    parts.append((b'Content-Disposition: form-data; name="a"; filename="f%d.txt"' % k, b'data%d' % k))
+                else:
+                    parts.append((b'Content-Disposition: form-data; name="a"', b't%d' % k))
+            yield from spread(ms.build(parts, 'BND', final_crlf=True), _mp_ctype('BND'), 'same-name-text-and-file-%s' % ''.join(map(str, bits)), 2,
+                              touches=['all', 'post', 'forms', 'files'])
     # ---- 1. grammar mutations of well-formed multipart bodies
     for bname, (bd, parts) in BASES.items():
         toks = tokens(parts, bd)
@@ -369,6 +381,9 @@ def gen_cases(tier, seed):
             continue
         seen.add(h)
         yield c
+        # every 50th distinct case also on a fresh worker thread (see run_case)
+        if len(seen) % 50 == 0:
+            yield dict(c, in_thread=True)
 
 
 # ------------------------------------------------------------------------------------------------------------------
@@ -411,6 +426,27 @@ def sent_payload(case):
 
 
 def run_case(case):
+    if case.get('in_thread'):
+        # served on a thread other than the one that imported the package (what a threaded server does): thread-local
+        # state set up at import time (e.g. on the error objects of DefaultConfig.errors_map) is not there
+        import threading
+        box = {}
+        c2 = dict(case)
+        c2.pop('in_thread')
+
+        def work():
+            try:
+                box['r'] = run_case(c2)
+            except BaseException as e:  # noqa
+                box['e'] = e
+        t = threading.Thread(target=work, daemon=True)
+        t.start()
+        t.join(30)
+        if t.is_alive():
+            return fail('hang', detail='worker thread did not finish')
+        if 'e' in box:
+            raise box['e']
+        return box.get('r')
     import ombott
     body = case['body']
     cfg = {'max_memfile_size': case['mem']}
